@@ -65,11 +65,13 @@ type Op08 struct {
 type C08Case struct {
 	StartSeq uint32 `json:"start_seq"`
 	Ops      []Op08 `json:"ops"`
+	// WrapErrs: how the transport reports a failing receive: 0 the bare errno, 1 *os.SyscallError, 2 fmt.Errorf("%w")
+	WrapErrs int `json:"wrap_errs,omitempty"`
 }
 
 func (c C08Case) Describe() string {
 	var b strings.Builder
-	fmt.Fprintf(&b, "start sequence %d\n", c.StartSeq)
+	fmt.Fprintf(&b, "start sequence %d; failing receives report their errno %s\n", c.StartSeq, []string{"bare", "as *os.SyscallError", "wrapped with %w"}[c.WrapErrs%3])
 	for i, o := range c.Ops {
 		fmt.Fprintf(&b, " %d %s fault=%q/%d arg=%d/%v ack-errno=%d foreign=%v status=%x rules=%s rule=%x delErrAt=%d delErrno=%d noise=%v\n", i, o.Op, o.Fault, o.FaultErrno, o.U32, o.Bool, o.Errno, o.Foreign, o.Status, rulesText(o.Rules), o.Rule, o.DelErrAt, o.DelErrno, o.Noise)
 		if len(o.Batch) > 0 {
@@ -92,6 +94,13 @@ var errnoChoices = []int{int(syscall.EPERM), int(syscall.ENOENT), int(syscall.EE
 	int(syscall.EACCES), int(syscall.ENOBUFS), int(syscall.EOPNOTSUPP), int(syscall.EAGAIN), int(syscall.EINTR), int(syscall.ENOSPC), int(syscall.E2BIG),
 	int(syscall.EFAULT), int(syscall.ESRCH), int(syscall.ECONNREFUSED), int(syscall.EIO), int(syscall.ENODEV), int(syscall.ERANGE), 133}
 
+func noiseSizes() []int {
+	if hx.Thorough() {
+		return []int{0, 0, 1, 2, 3, 10, 9, 11, 25, 60, 65, 64, 129, 257, 1025, 4097}
+	}
+	return []int{0, 0, 1, 2, 3, 10, 9, 11, 25, 60, 65, 64, 129, 257}
+}
+
 func genNoise(t *rapid.T, eagainBudget *int) []Noise {
 	var out []Noise
 	for i, n := 0, rapid.IntRange(0, 4).Draw(t, "nnoise"); i < n; i++ {
@@ -99,7 +108,7 @@ func genNoise(t *rapid.T, eagainBudget *int) []Noise {
 		// (the property puts no bound on the number of unsolicited records; only failures are bounded, per run)
 		// (dozens at a busy moment, thousands when the backlog of a loaded machine is drained: any power of two is a
 		// plausible "enough" for somebody)
-		nz.Events = rapid.SampledFrom([]int{0, 0, 1, 2, 3, 10, 9, 11, 25, 60, 65, 64, 129, 257, 1025}).Draw(t, "events")
+		nz.Events = rapid.SampledFrom(noiseSizes()).Draw(t, "events")
 		for j, k := 0, rapid.SampledFrom([]int{0, 0, 0, 1, 2, 5, 9}).Draw(t, "nfails"); j < k; j++ {
 			e := int(syscall.EINTR)
 			if *eagainBudget > 0 && rapid.IntRange(0, 9).Draw(t, "eagain") == 0 {
@@ -164,6 +173,7 @@ func genOp08(t *rapid.T, eagainBudget *int) Op08 {
 
 func genC08(t *rapid.T) C08Case {
 	c := C08Case{StartSeq: rapid.SampledFrom([]uint32{0, 0, 5, 1000, 1<<31 - 2, 1<<32 - 3, 1<<32 - 2}).Draw(t, "startseq")}
+	c.WrapErrs = rapid.SampledFrom([]int{0, 0, 1, 2}).Draw(t, "wraperrs")
 	budget := 0
 	if rapid.IntRange(0, 7).Draw(t, "eagainhistory") == 0 {
 		budget = 2
@@ -313,6 +323,10 @@ func noWaitBatch(k *simk.K, cl *libaudit.AuditClient, errnos []int, op int) erro
 
 func propC08(c C08Case) error {
 	k := simk.New(c.StartSeq)
+	k.WrapFails = c.WrapErrs % 3
+	if k.WrapFails != 0 {
+		hC08.Class("history-with-wrapped-receive-errors")
+	}
 	cl := &libaudit.AuditClient{Netlink: k}
 	nontrivial := false
 	for i, o := range c.Ops {
